@@ -39,7 +39,12 @@ struct Case
     bool chain = false;
     int h_delay = 0;
     std::vector<int> w_delay;
+    // aligned variant of the chain: the holder unlocks when the earliest try_lock_for deadline of a waiter
+    // passes (+ jitter), the overlap of 'timed out' with 'handed the lock' that the hand-off clause must survive
+    bool aligned = false;
+    int jitter = 0;
 };
+static const long long jitter_ns[] = {0, -300, 300, -1000, 1000, -3000, 3000, -10000, 10000};
 static const long long chain_ns[] = {0, 5000, 20000, 100000, 500000, 2000000};
 
 static Case decode(tape_t const& tape)
@@ -86,6 +91,11 @@ static Case decode(tape_t const& tape)
             p.action = t.pick({0, 2});
             p.dur = 2 + static_cast<int>(t.below(4));
             c.cfg.plan.push_back(p);
+        }
+        if (kind == LK_TIMED)
+        {
+            c.aligned = t.chance(1, 2);
+            c.jitter = static_cast<int>(t.below(9));
         }
         return c;
     }
@@ -137,6 +147,7 @@ static std::string describe(tape_t const& tape)
         os << ", \"template\": \"hand_off_chain\", \"holder_unlock_delay_ns\": " << chain_ns[c.h_delay] << ", \"waiter_start_delay_ns\": [";
         for (std::size_t i = 0; i < c.w_delay.size(); ++i) os << (i ? "," : "") << chain_ns[c.w_delay[i]];
         os << "]";
+        if (c.aligned) os << ", \"unlock_aligned_to_first_deadline_plus_ns\": " << jitter_ns[c.jitter];
     }
     os << ", \"locks\": [";
     for (std::size_t i = 0; i < c.locks.size(); ++i) os << (i ? ", " : "") << "\"" << lock_names[c.locks[i]] << "\"";
@@ -191,6 +202,7 @@ static void spin_ns(long long ns)
 struct State
 {
     std::atomic<int> chain_held{0}, chain_started{0};
+    std::atomic<long long> first_deadline{0};    // steady_clock ns of the earliest try_lock_for deadline among the chain waiters (0 none)
     std::vector<std::unique_ptr<LockRt>> locks;
     pika::counting_semaphore<> side{0};
     std::atomic<long long> held_migrations{0}, held_suspends{0}, timed_true{0}, timed_false{0}, try_false{0}, misuse_ok{0};
@@ -383,7 +395,13 @@ static void chain_holder(State& st, Case const& c, LockRt& l, M& m)
     while (st.chain_started.load() < k) pika::this_thread::yield();
     // the waiters are inside (or about to enter) their lock call: give them a moment to queue up, then unlock
     for (int i = 0; i < 3; ++i) pika::this_thread::yield();
-    spin_ns(chain_ns[c.h_delay]);
+    long long dl = st.first_deadline.load();
+    if (c.aligned && dl != 0)
+    {
+        dl += jitter_ns[c.jitter];
+        while (std::chrono::duration_cast<std::chrono::nanoseconds>(std::chrono::steady_clock::now().time_since_epoch()).count() < dl) {}
+    }
+    else spin_ns(chain_ns[c.h_delay]);
     leave(l, 0);
     m.unlock();
 }
@@ -403,6 +421,12 @@ static void run_task(State& st, Case const& c, int task)
         }
         while (st.chain_held.load() == 0) pika::this_thread::yield();
         spin_ns(chain_ns[c.w_delay[static_cast<std::size_t>(task - 1)]]);
+        if (c.aligned && ts.blocks[0].form == FM_TRY_FOR)
+        {
+            long long dl = std::chrono::duration_cast<std::chrono::nanoseconds>(std::chrono::steady_clock::now().time_since_epoch()).count() + for_ns[ts.blocks[0].dur];
+            long long cur = st.first_deadline.load();
+            while ((cur == 0 || dl < cur) && !st.first_deadline.compare_exchange_weak(cur, dl)) {}
+        }
         st.chain_started.fetch_add(1);
     }
     for (Block const& b : ts.blocks)
@@ -514,6 +538,7 @@ static Outcome run(tape_t const& tape)
     out.tags.push_back(std::string("policy:") + policies[c.cfg.policy]);
     out.tags.push_back("workers:" + std::to_string(c.cfg.workers));
     if (c.chain) out.tags.push_back("template:hand_off_chain");
+    if (c.chain && c.aligned) out.tags.push_back("template:unlock_at_deadline");
     for (int k : c.locks) out.tags.push_back(std::string("lock:") + lock_names[k]);
     if (contended > 0) out.tags.push_back("saw:contended_lock");
     if (st.held_migrations.load() > 0) out.tags.push_back("saw:holder_migrated");
